@@ -42,7 +42,10 @@ theorem validity_allValid (lk : Lookup) (s : List UInt8) (h : Biogo.Proofs.Filte
     substitutions) — in a self comparison: every such match at least
     `MaxError + maxIGap + tubeWidth` diagonals above the main diagonal, below that the merger's cut
     may drop the covering hit on purpose — lies in a returned trapezoid: its diagonal `b - a` is
-    within `[Left, Right]` and its query interval `[b, b+n)` overlaps `[Bottom, Top]`. -/
+    within `[Left, Right]`, its query interval `[b, b+n)` overlaps `[Bottom, Top]`, and the
+    trapezoid is at least `k` high (it contains a filter hit, which contains a whole k-mer), so it
+    passes the pre-screen `t.Top-t.Bottom >= a.k` of `AlignTraps` and — unless an earlier hit
+    already covers it — is handed to the kernel: **the pair is guaranteed to be seeded**. -/
 theorem epsmatch_inside_trapezoid {lk : Lookup} (hlk : FourLetter lk) (t q : List UInt8)
     (k n e off g : Nat) (selfAlign : Bool)
     (hk : Biogo.Kmer.minKmerLen ≤ k) (hk' : k ≤ Biogo.Kmer.maxKmerLen) (ht : k + 1 ≤ t.length)
@@ -56,7 +59,7 @@ theorem epsmatch_inside_trapezoid {lk : Lookup} (hlk : FourLetter lk) (t q : Lis
     ∀ a b, EpsMatch lk t q n e a b → required selfAlign a b = true →
       (selfAlign = true → (b : Int) - a > (e : Int) + g + ((off : Int) + e - 1)) →
       ∃ T ∈ traps, T.left ≤ (b : Int) - a ∧ (b : Int) - a ≤ T.right ∧
-        T.bottom < (b : Int) + n ∧ (b : Int) < T.top := by
+        T.bottom < (b : Int) + n ∧ (b : Int) < T.top ∧ preScreen k T = true := by
   intro a b hmatch hreq hfar
   have hk1 : 2 ≤ k ∧ 2 * k ≤ Biogo.Kmer.wordBits := by
     unfold Biogo.Kmer.minKmerLen at hk; unfold Biogo.Kmer.maxKmerLen at hk'; unfold Biogo.Kmer.wordBits; omega
@@ -89,7 +92,9 @@ theorem epsmatch_inside_trapezoid {lk : Lookup} (hlk : FourLetter lk) (t q : Lis
       ordered := by
         intro x hx
         obtain ⟨y, hy, rfl⟩ := List.mem_map.mp ((hsame x).mp hx)
-        exact hwf y hy }
+        have := hwf y hy
+        simp only [toF]
+        omega }
   have hin : toF h0 ∈ sorted := (hsame _).mpr (List.mem_map.mpr ⟨h0, hh0, rfl⟩)
   have hnotcut : selfCut (mergerCfg lk t q k e off g selfAlign) (toF h0) = false := by
     unfold selfCut
@@ -101,11 +106,17 @@ theorem epsmatch_inside_trapezoid {lk : Lookup} (hlk : FourLetter lk) (t q : Lis
       apply decide_eq_false
       omega
   obtain ⟨T, hT, l1, l2, l3, l4⟩ := merger_covers_hits _ sorted traps pre hm (toF h0) hin hnotcut
-  refine ⟨T, hT, ?_, ?_, ?_, ?_⟩
+  have hk0 := hwf h0 hh0
+  rw [builtIndex_k] at hk0
+  refine ⟨T, hT, ?_, ?_, ?_, ?_, ?_⟩
   · simp only [toF] at l1; omega
   · simp only [toF, Cfg.binWidth, Cfg.tubeWidth, mergerCfg] at l2; omega
   · simp only [toF] at l3; omega
   · simp only [toF] at l4; omega
+  · simp only [toF] at l3 l4
+    unfold preScreen
+    apply decide_eq_true
+    omega
 
 theorem except_ok_of_check {ε α : Type} [DecidableEq α] (x : Except ε α) (v : α)
     (h : (match x with | .ok a => decide (a = v) | .error _ => false) = true) : x = .ok v := by
@@ -120,7 +131,7 @@ yields the trapezoid `{Top 5, Bottom 1, Left 1, Right 2}` -/
 open Biogo.Properties.C14 (dna) in
 example :
     ∃ T ∈ [(⟨5, 1, 1, 2⟩ : Trap)], T.left ≤ ((1 : Nat) : Int) - (0 : Nat) ∧ ((1 : Nat) : Int) - (0 : Nat) ≤ T.right ∧
-      T.bottom < ((1 : Nat) : Int) + (4 : Nat) ∧ ((1 : Nat) : Int) < T.top := by
+      T.bottom < ((1 : Nat) : Int) + (4 : Nat) ∧ ((1 : Nat) : Int) < T.top ∧ preScreen (4 : Nat) T = true := by
   have hlk : FourLetter dna := by
     intro b d h
     unfold dna at h
